@@ -93,6 +93,36 @@ func init() {
 		res, st := runDFPN(parseColor(a[0]), atoi(a[1]), p)
 		return fmtDFPN(res, st) + " " + truthField(s, a[2], p)
 	}
+	// dfpnnew <slot> <attacker> <entries> / dfpnuse <slot> <truthmode> <pos>: ONE DFPNSolver used for
+	// several positions (its table, killer moves, position pool and attacker live on between the calls)
+	opTable["dfpnnew"] = func(s *Session, a []string) string {
+		d := prove.NewDFPN(&prove.DFPNConfig{Attacker: parseColor(a[1]), TableMem: int64(atoi(a[2])) * prove.VerifEntrySize()})
+		s.slots["dfpn:"+a[0]] = d
+		return "ok"
+	}
+	opTable["dfpnuse"] = func(s *Session, a []string) string {
+		d, _ := s.slots["dfpn:"+a[0]].(*prove.DFPNSolver)
+		if d == nil {
+			return "no-solver"
+		}
+		p := decPos(a[2])
+		res, st := d.Prove(p)
+		return fmtDFPN(res, st) + " " + truthField(s, a[1], p)
+	}
+	// pnnew <slot> <maxnodes> <preserve> <pn2> <maxdepth> / pnuse <slot> <truthmode> <pos>: ONE Prover used for several positions
+	opTable["pnnew"] = func(s *Session, a []string) string {
+		s.slots["pn:"+a[0]] = prove.New(prove.Config{MaxNodes: atou(a[1]), PreserveSolved: a[2] != "0", PN2: a[3] != "0", MaxDepth: atoi(a[4])})
+		return "ok"
+	}
+	opTable["pnuse"] = func(s *Session, a []string) string {
+		pr, _ := s.slots["pn:"+a[0]].(*prove.Prover)
+		if pr == nil {
+			return "no-solver"
+		}
+		p := decPos(a[2])
+		res, st := pr.Prove(context.Background(), p)
+		return fmtPN(res, st) + " " + truthField(s, a[1], p)
+	}
 	// gtruth <attacker W|B> <cap> <pos>: exact forced-win status by retrograde analysis of the reachable graph
 	opTable["gtruth"] = func(s *Session, a []string) string {
 		g := exploreGraph(decPos(a[2]), atoi(a[1]))
